@@ -228,6 +228,9 @@ def check(prop, tier, base_seed=None, workers=None, nruns=None, quiet=False):
         zero = sorted(k for k, v in probes.items() if not v)
         if zero:
             out.write('  WARNING probes at zero: %s\n' % ', '.join(zero))
+        leaked = sorted(k[len('module_state_restored:'):] for k in stats if k.startswith('module_state_restored:'))
+        if leaked:
+            out.write('  NOTE library state outlived a run and was restored by the world (not a verdict): %s\n' % ', '.join(leaked[:8]))
         if stats.get('seam_bypass'):
             out.write('  WARNING clock seam bypassed in %d ops (oracles stay sound; steering lost)\n' % stats['seam_bypass'])
     for sig, n in sorted(agg['known_hits'].items()):
